@@ -297,7 +297,8 @@ class C20(Check):
                     if np.dtype(cs.NATIVE[v.xtype]).kind in "iu" and v.xtype != cs.NC_CHAR:
                         m = re.search(r"^ %s =\s*(.*?);" % re.escape(v.name.decode()), so, re.M | re.S)
                         if m:
-                            got = [int(x) for x in re.findall(r"-?\d+", re.sub(r"//.*", "", m.group(1)))]
+                            # ncmpidump prints "_" for an element equal to the (default) fill value of the type
+                            got = [int(cs.FILL[v.xtype]) if x == "_" else int(x) for x in re.findall(r"-?\d+|(?<![\w.])_(?![\w.])", re.sub(r"//.*", "", m.group(1)))]
                             want = [int(x) for x in data[i].reshape(-1)]
                             if got != want:
                                 out.append(bad("dump|data", "ncmpidump prints %s for variable %s, the file holds %s" % (got[:8], v.name.decode(), want[:8]), [A]))
